@@ -274,3 +274,20 @@ VARIANTS += [
     dict(prop="C03", name="round-up-batch", expect="CONST-capacity|round-down@protocol::hybrid::agg",
          edits=[dict(file="ipa-core/src/protocol/hybrid/agg.rs", find="        non_zero_prev_power_of_two(TARGET_PROOF_SIZE / (BK::BITS as usize + V::BITS as usize));", replace="        (TARGET_PROOF_SIZE / (BK::BITS as usize + V::BITS as usize)).next_power_of_two();")]),
 ]
+
+PRM = "ipa-core/src/protocol/prss/mod.rs"
+VARIANTS += [
+    # ---------------- C06 ----------------
+    dict(prop="C06", name="shift-8", expect="RANGE-index|offset-fits-below-shift",
+         edits=[dict(file=PRM, find="            (u64::from(value.index.0) << 32) + u64::from(value.offset)", replace="            (u64::from(value.index.0) << 8) + u64::from(value.offset)")]),
+    dict(prop="C06", name="offset-unchecked", expect="RANGE-index|new-rejects-large-offset",
+         edits=[dict(file=PRM, find="            if this.offset <= Self::MAX_OFFSET {\n                Ok(this)\n            } else {\n                Err(PrssIndexError::OutOfRange(this.into()))\n            }", replace="            Ok(this)")]),
+    dict(prop="C06", name="literal-prss-index", expect="WHO-draws",
+         edits=[dict(file="ipa-core/src/protocol/ipa_prf/validation_protocol/proof_generation.rs", find="prss_record_ids.expect_next()", replace="RecordId::from(7usize)", count=2)]),
+    dict(prop="C06", name="right-uses-other-index", expect="WHO-symmetry|same-index-both-sides",
+         edits=[dict(file=PRM, find="            right: Self::ChunkIter::new(self, index, Direction::Right),", replace="            right: Self::ChunkIter::new(self, PrssIndex(index.0 ^ 1), Direction::Right),")]),
+    dict(prop="C06", name="direction-swapped", expect="WHO-symmetry|direction-selects-generator",
+         edits=[dict(file=PRM, find="                Direction::Left => &prss.left,\n                Direction::Right => &prss.right,", replace="                Direction::Left => &prss.right,\n                Direction::Right => &prss.left,")]),
+    dict(prop="C06", name="sequential-allows-reuse", expect="GUARD-kind|sequential-refuses-reuse",
+         edits=[dict(file=PRM, find="        assert!(\n            prev.is_none(),\n            \"Attempt access a sequential PRSS for {key} after another access\"\n        );", replace="        drop(prev);")]),
+]
